@@ -24,6 +24,8 @@ CONSTANTS Impl,            \* "ref" | "asis" | sanity variants "droppm" | "snres
           BnVars,          \* subset of {"dflt", "noaff", "notrs", "epsmom"}  ("none" is always offered)
           SnoVars,         \* subset of 1..4: option presets of SuperNet blocks
           AllowPl, AllowExcl, AllowReuse, AllowLin3, AllowDrop,
+          AllowBnShare,    \* BatchNorm sharing patterns: one BN object after two layers, own BN at a reuse site, two BNs in a row
+          PlainOps,        \* subset of {"relu", "pool", "flat", "add"} offered by Grow
           AllowFindings,   \* FALSE: Conv is only taken on SupportedImport(arch, cfg)
           MaxHist          \* length of the call history after the conversion
 
@@ -58,12 +60,15 @@ SnoPreset(i) ==
 Node(op, ins, out, dw, cp, bias, bp, pl, excl, reuse, sn, sno, kind) ==
     [op |-> op, ins |-> ins, out |-> out, k |-> cp.k, d |-> cp.d, s |-> cp.s, dw |-> dw, grp |-> cp.grp, bias |-> bias,
      pad |-> cp.pad, pm |-> cp.pm, bn |-> bp.bn, eps |-> bp.eps, mom |-> bp.mom, aff |-> bp.aff, trs |-> bp.trs,
-     excl |-> excl, reuse |-> reuse, pl |-> pl, sn |-> sn, sno |-> sno, kind |-> kind]
+     excl |-> excl, reuse |-> reuse, pl |-> pl, sn |-> sn, sno |-> sno, kind |-> kind,
+     bnref |-> 0, bn2 |-> FALSE, bnown |-> FALSE]
 NoConv == [k |-> 1, d |-> 1, s |-> 1, grp |-> 1, pad |-> "same", pm |-> "zeros"]
 Plain(op, ins, kind) == Node(op, ins, 0, FALSE, NoConv, TRUE, BnPreset("none"), FALSE, FALSE, 0, <<>>, NoSno, kind)
 
+\* two-stream forward: the second input is a tensor of its own (node 1)
 Init == /\ \E tw \in Twos, dm \in Dims :
-             arch = [dim |-> dm, c0 |-> C0, sp |-> Sp0, two |-> tw, ca |-> IF tw = "cat" THEN 1 ELSE 0, nodes |-> <<>>]
+             arch = [dim |-> dm, c0 |-> C0, sp |-> Sp0, two |-> tw, ca |-> IF tw = "cat" THEN 1 ELSE 0,
+                     nodes |-> IF tw = "sep" THEN <<Plain("in2", <<>>, "")>> ELSE <<>>]
         /\ method \in Methods
         /\ phase = "grow" /\ cfg = NoCfg /\ cv = <<>> /\ wmode = FALSE /\ smode = FALSE /\ last = FALSE
         /\ setseen = FALSE /\ hist = <<>> /\ exported = <<>>
@@ -86,9 +91,23 @@ Fits(a, p, name, w, dwc) ==
     /\ (cp.grp > 1 => ~dwc /\ Ch(a, p) >= 2 * cp.grp /\ Ch(a, p) % cp.grp = 0 /\ w % cp.grp = 0)
 \* layer objects that may be invoked a second time: plain (non-SuperNet) conv / linear owners
 Reusable(a) == {m \in Layers(a) : Nd(a, m).reuse = 0 /\ ~IsSN(a, m) /\ Op(a, m) # "lin3"}
+\* BatchNorm sharing patterns derived from a candidate layer node nd (on the architecture a it would be appended to)
+BnClass(a, op) == IF op = "lin" THEN 1 ELSE a.dim
+OwnsBn(a, m)   == IsLayer(a, m) /\ ~IsSN(a, m) /\ Nd(a, m).bn /\ Nd(a, m).bnref = 0 /\ (Nd(a, m).reuse = 0 \/ Nd(a, m).bnown)
+OutCh(a, nd)   == IF nd.op = "conv" /\ nd.dw THEN Ch(a, nd.ins[1]) ELSE nd.out
+BnShareVariants(a, nd) ==
+    IF ~AllowBnShare \/ nd.op \notin {"conv", "lin"} \/ Len(nd.sn) > 0 THEN {}
+    ELSE    \* (a) the BatchNorm object of an earlier call site of ANOTHER layer (same class and width) instead of an own one
+            {[nd EXCEPT !.bn = FALSE, !.bnref = m] :
+                m \in {x \in Layers(a) : OwnsBn(a, x) /\ BnClass(a, Op(a, x)) = BnClass(a, nd.op) /\ Ch(a, x) = OutCh(a, nd)
+                                          /\ nd.reuse = 0}}
+       \cup \* (c) two BatchNorm objects in a row
+            (IF nd.bn /\ nd.reuse = 0 THEN {[nd EXCEPT !.bn2 = TRUE]} ELSE {})
+       \cup \* (b) a reuse site with its own BatchNorm object (or none) instead of the owner's
+            (IF nd.reuse > 0 THEN {[nd EXCEPT !.bnown = TRUE, !.bn = b] : b \in BOOLEAN} ELSE {})
 
 FitP(a, cn, w, dwc) == {p \in NF(a) : Fits(a, p, cn, w, dwc)}
-Candidates(a, m) ==
+BaseCandidates(a, m) ==
     UNION {UNION {{Node("conv", <<p>>, w, FALSE, ConvPreset(cn, a.dim), b, BnPreset(bn), px[1], px[2], 0, <<>>, NoSno, "") :
                       p \in FitP(a, cn, w, FALSE), b \in BOOLEAN, bn \in Bns,
                       px \in {x \in PlEx(m) : ~(x[1] /\ ConvPreset(cn, a.dim).grp > 1)}} : w \in Widths} : cn \in ConvVars}
@@ -109,19 +128,23 @@ Candidates(a, m) ==
           THEN UNION {{[Nd(a, o) EXCEPT !.ins = <<p>>, !.reuse = o] :
                           p \in {t \in T(a) : Compatible(a, t, In1(a, o)) /\ t # In1(a, o)}} : o \in Reusable(a)}
           ELSE {})
-    \cup {Plain("relu", <<p>>, "") : p \in T(a) \ {0}}
-    \cup (IF AllowDrop THEN {Plain("drop", <<p>>, "") : p \in T(a) \ {0}} ELSE {})
-    \cup {Plain("pool", <<p>>, kd) : p \in {t \in NF(a) \ {0} : Sp(a, t) >= 2}, kd \in {"avg", "max"}}
-    \cup {Plain("flat", <<p>>, "") : p \in NF(a)}
-    \cup {Plain("add", <<pq[1], pq[2]>>, "") :
-            pq \in {x \in T(a) \X T(a) : x[1] < x[2] /\ Compatible(a, x[1], x[2])}}
+    \cup (IF "relu" \in PlainOps THEN {Plain("relu", <<p>>, "") : p \in {t \in T(a) \ {0} : Op(a, t) # "in2"}} ELSE {})
+    \cup (IF AllowDrop THEN {Plain("drop", <<p>>, "") : p \in {t \in T(a) \ {0} : Op(a, t) # "in2"}} ELSE {})
+    \cup (IF "pool" \in PlainOps
+          THEN {Plain("pool", <<p>>, kd) : p \in {t \in NF(a) \ {0} : Sp(a, t) >= 2 /\ Op(a, t) # "in2"}, kd \in {"avg", "max"}}
+          ELSE {})
+    \cup (IF "flat" \in PlainOps THEN {Plain("flat", <<p>>, "") : p \in NF(a)} ELSE {})
+    \cup (IF "add" \in PlainOps
+          THEN {Plain("add", <<pq[1], pq[2]>>, "") : pq \in {x \in T(a) \X T(a) : x[1] < x[2] /\ Compatible(a, x[1], x[2])}}
+          ELSE {})
+Candidates(a, m) == BaseCandidates(a, m) \cup UNION {BnShareVariants(a, nd) : nd \in BaseCandidates(a, m)}
 
-Grow == /\ phase = "grow" /\ N(arch) < MaxNodes
+Grow == /\ phase = "grow" /\ N(arch) < MaxNodes + (IF arch.two = "sep" THEN 1 ELSE 0)
         /\ \E nd \in Candidates(arch, method) : arch' = [arch EXCEPT !.nodes = Append(@, nd)]
         /\ UNCHANGED <<method, phase, cfg, cv, wmode, smode, last, setseen, hist, exported>>
 
 Used(a, t) == \E n \in 1..N(a) : t \in SeqSet(Ins(a, n))
-Sealable(a) == /\ N(a) >= 1
+Sealable(a) == /\ N(a) >= 1 /\ Op(a, N(a)) # "in2"
                /\ \A t \in 0..(N(a) - 1) : Used(a, t)
                /\ Layers(a) # {}
                /\ InDomain(a)
@@ -156,13 +179,22 @@ HExport == /\ CanAct
            /\ smode' = IF Impl = "stalemode" THEN (cfg.mode = "train") ELSE smode
            /\ hist' = Append(hist, "export")
            /\ UNCHANGED <<arch, method, phase, cfg, cv, wmode, last, setseen>>
+\* export(add_bn=False): as implemented the option has no effect on the search model (sanity variant "nobnstick": it strips
+\* the fused BatchNorm off the layers of the SEARCH model, for good)
+HExportNoBn == /\ CanAct /\ method = "PIT"
+               /\ cv' = IF Impl = "nobnstick" THEN StripBn(cv) ELSE cv
+               /\ smode' = IF Impl = "stalemode" THEN (cfg.mode = "train") ELSE smode
+               /\ hist' = Append(hist, "export_nobn")
+               /\ UNCHANGED <<arch, method, phase, cfg, wmode, last, setseen, exported>>
 \* observers; a forward pass is an observer in eval mode only (in training mode it updates BatchNorm statistics by design)
-HObs(what) == /\ CanAct
+ObsOf(m) == {"summary", "cost", "forward"} \cup (IF m = "SN" THEN {"icv"} ELSE IF m = "MPS" THEN {"nassum"} ELSE {})
+HObs(what) == /\ CanAct /\ what \in ObsOf(method)
               /\ (what = "forward" => ~wmode)
               /\ hist' = Append(hist, what)
               /\ UNCHANGED <<arch, method, phase, cfg, cv, wmode, smode, last, setseen, exported>>
 
-Next == Grow \/ Conv \/ HSet(TRUE) \/ HSet(FALSE) \/ HExport \/ HObs("summary") \/ HObs("cost") \/ HObs("forward")
+Next == Grow \/ Conv \/ HSet(TRUE) \/ HSet(FALSE) \/ HExport \/ HExportNoBn
+        \/ \E w \in {"summary", "cost", "forward", "icv", "nassum"} : HObs(w)
 
 Spec == Init /\ [][Next]_vars
 \* enumeration of the scenarios only (what the harness builds for real): architectures and configurations
@@ -194,8 +226,10 @@ InvExportIso   == Live /\ exported # <<>> => exported = ExpSeq(arch, cfg, Export
 InvExportLiteral == Live /\ exported # <<>> /\ method = "PIT" /\ ~cfg.fold => exported = OrigSeq(arch)
 \* a folded BatchNorm never reappears, an unfolded one always does (count of BN records)
 BnCount(s) == Cardinality({i \in DOMAIN s : s[i].t = "bn"})
+RECURSIVE SumLen(_, _)
+SumLen(f, n) == IF n = 0 THEN 0 ELSE Len(f[n]) + SumLen(f, n - 1)
 InvBnAccount == Live /\ exported # <<>> /\ method = "PIT" =>
-                   BnCount(exported) = Cardinality({n \in Sites(arch) : OrigBn(arch)[n] /\ ~(Handled(arch, cfg, n) /\ cfg.fold)})
+                   BnCount(exported) = SumLen(ExpBn(arch, cfg), N(arch))
 \* the converted graph has the layers of the original with their configuration
 InvNasConfig == Live /\ method = "PIT" => CfgOnly(Flat(arch, ExportCfg(arch, cv), ExportBias(arch, cv), cv.bnode, NoChoice(arch)))
                                            = CfgOnly(NasSeq(arch, cfg))
